@@ -151,6 +151,7 @@ type c18aOp struct {
 	in      models.FQOp
 	doc     []byte
 	consume int // >0: consumer op kind (not in history)
+	fee     *bt.Fee
 }
 
 func (w *c18aWorld) Run(c *kernel.RunCtx) {
@@ -188,6 +189,8 @@ func (w *c18aWorld) Run(c *kernel.RunCtx) {
 	}
 	wts[c.Choose(len(wts))] += 3
 	feeSeq := 1000
+	var lastFee *bt.Fee
+	lastFeeID, sharedFees := 0, 0
 	types := []string{"standard", "data"}
 	plans := make([][]c18aOp, ntasks)
 	for t := 0; t < ntasks; t++ {
@@ -201,6 +204,14 @@ func (w *c18aWorld) Run(c *kernel.RunCtx) {
 			case "QAdd", "SUpdate":
 				feeSeq++
 				op.in.Fee = feeSeq
+				op.fee = feeOf(feeSeq)
+				if lastFee != nil && c.Bool(1, 5) {
+					// the application keeps one *Fee object per rate and hands the SAME object to several quotes / types
+					op.fee, op.in.Fee = lastFee, lastFeeID
+					feeSeq--
+					sharedFees++
+				}
+				lastFee, lastFeeID = op.fee, op.in.Fee
 				if kind == "SUpdate" && c.Bool(1, 8) {
 					op.in.Empty = true
 				}
@@ -240,6 +251,9 @@ func (w *c18aWorld) Run(c *kernel.RunCtx) {
 			plans[t] = append(plans[t], op)
 			c.End()
 		}
+	}
+	if sharedFees > 0 {
+		c.Count("probe.one_fee_object_in_several_writes", sharedFees)
 	}
 	nclock := c.Choose(5)
 	clockTimes := make([]int64, nclock)
@@ -283,7 +297,7 @@ func (w *c18aWorld) Run(c *kernel.RunCtx) {
 					f, err := q.Fee(bt.FeeType(in.Type))
 					out.Fee, out.Err = feeID(f, site), errClass(err)
 				case "QAdd":
-					q.AddQuote(bt.FeeType(in.Type), feeOf(in.Fee))
+					q.AddQuote(bt.FeeType(in.Type), op.fee)
 				case "QExpiry":
 					out.Time = q.Expiry().Unix()
 				case "QUpdateExpiry":
@@ -311,9 +325,9 @@ func (w *c18aWorld) Run(c *kernel.RunCtx) {
 				case "SUpdate":
 					var err error
 					if in.Empty {
-						_, err = fqs.UpdateMinerFees(in.Miner, "", feeOf(in.Fee))
+						_, err = fqs.UpdateMinerFees(in.Miner, "", op.fee)
 					} else {
-						_, err = fqs.UpdateMinerFees(in.Miner, bt.FeeType(in.Type), feeOf(in.Fee))
+						_, err = fqs.UpdateMinerFees(in.Miner, bt.FeeType(in.Type), op.fee)
 					}
 					out.Err = errClass(err)
 				}
@@ -457,6 +471,10 @@ func (*c18bWorld) Runs(tier string) int {
 // one-time initialisers) is cold again and its first, racy use happens under the scheduler many times per check.
 func (*c18bWorld) ProcessRuns() int { return 40 }
 
+// SingleProc: the simulated scheduler decides who runs; a second P adds nothing.
+func (*c18bWorld) SingleProc() bool { return true }
+func (*c18aWorld) SingleProc() bool { return true }
+
 func (*c18bWorld) Info() kernel.WorldInfo {
 	return kernel.WorldInfo{
 		Level: "exploration",
@@ -519,6 +537,31 @@ func (w *c18bWorld) Run(c *kernel.RunCtx) {
 			c.Count("probe.scripts_only_validator", 1)
 		}
 		c.End()
+	}
+	if c.Bool(1, 4) {
+		// twins: several validators are handed the same transaction (separate objects, identical bytes) — the inputs
+		// of one transaction, or one transaction received more than once, being validated at the same time
+		a := c.Choose(ntasks)
+		for i, p := range progs {
+			if p.txBytes != nil {
+				a = i // prefer a library-signed spend: its signature check is the expensive, cacheable part
+				break
+			}
+		}
+		copies := 1 + c.Choose(ntasks-1)
+		for b := 0; b < ntasks && copies > 0; b++ {
+			if b == a {
+				continue
+			}
+			cp := *progs[a]
+			cp.unlock, cp.lock = append([]byte(nil), cp.unlock...), append([]byte(nil), cp.lock...)
+			if cp.txBytes != nil {
+				cp.txBytes = append([]byte(nil), cp.txBytes...)
+			}
+			progs[b] = &cp
+			copies--
+		}
+		c.Count("probe.twin_validations", 1)
 	}
 	c.End()
 	canaries() // baseline verdicts are taken before this process has run anything else in this world
@@ -630,8 +673,16 @@ func canaries() []canary {
 	redeem := []byte{0x51, 0x87}
 	raw = append(raw, &program{unlock: append([]byte{0x51}, pushOf(redeem)...), lock: append(append([]byte{0xa9, 0x14}, cryptoHash160(redeem)...), 0x87), flags: parseFlags("P2SH,STRICTENC"), src: "canary P2SH spend"})
 	raw = append(raw, fixedSpend(0x41, 2, 2, 2, 1), fixedSpend(0x03, 1, 3, 1, 2), fixedSpend(0x01, 1, 1, 1, 0), fixedSpend(0xc3, 0x7fffffff, 2, 2, 0))
-	for _, p := range raw {
-		canaryList = append(canaryList, canary{p, execProgram(p, nil)})
+	// what consensus says about them (true: the spend is valid). The instrumented build must agree before anything it
+	// reports is believed: a disagreement means the instrumentation changed the program (or the tree has a plain
+	// sequential defect, which is not this property's subject) — either way trouble, not a C18 verdict.
+	truth := []bool{false, true, true, true, true, false, true, true, false, true, true, true, true, true}
+	for i, p := range raw {
+		got := execProgram(p, nil)
+		if i < len(truth) && (got.class == "ok") != truth[i] {
+			panic(fmt.Sprintf("harness: in a pristine process the instrumented build answers %s for canary %d (%s), consensus says valid=%v: instrumentation fault or a sequential defect outside C18", got, i, p.src, truth[i]))
+		}
+		canaryList = append(canaryList, canary{p, got})
 	}
 	return canaryList
 }
